@@ -11,7 +11,7 @@ from __future__ import annotations
 import ast
 
 from .. import flow
-from ..astutil import body_walk, call_name, call_recv, calls_in, fstring_parts, merge_consts, names_in, norm, strip_await, walk_no_nested
+from ..astutil import kwarg, body_walk, call_name, call_recv, calls_in, fstring_parts, merge_consts, names_in, norm, strip_await, walk_no_nested
 from ..shape import NO, TOP, YES, Shapes, paren_balance, quoted_holes
 from .common import env_of, is_push_call, parmap, typer, where
 
@@ -837,6 +837,86 @@ def r7_12(ctx):
         ctx.ok("R7.12", where(sr), "no response line is built as `SP <possibly empty joined list> CRLF`")
 
 
+def r7_13(ctx):
+    """`[COPYUID <uidvalidity> <source uid-set> <destination uid-set>]`: a uid-set is never empty.  A COPY / MOVE whose set
+    names no message of the mailbox copies nothing and is still answered OK, so each place that builds the response code
+    does so only when its source list is known to hold something (a truth test of that list on the way, or an early
+    return for the empty case)."""
+    p = ctx.p
+    n = 0
+    for fi in p.funcs_in("client"):
+        calls = [c for c in calls_in(fi.node) if call_name(c) == "_format_copyuid" and len(c.args) >= 2]
+        if not calls:
+            continue
+        ctx.analysed(fi)
+        par = parmap(fi)
+        for c in calls:
+            n += 1
+            src = c.args[1]
+            if not isinstance(src, ast.Name):
+                ctx.bad("R7.13", fi.module, fi.qual, norm(c, 80), "the source UID list is built inside the call: nothing can have tested it for being empty - a COPY that copies nothing is answered `[COPYUID <uidvalidity>  ]`", c.lineno)
+                continue
+            nm = src.id
+            guarded = False
+            cur = c
+            while cur in par and not guarded:
+                up = par[cur]
+                if isinstance(up, ast.If) and cur in up.body and isinstance(up.test, ast.Name) and up.test.id == nm:
+                    guarded = True
+                if isinstance(up, ast.If) and cur in up.orelse and isinstance(up.test, ast.UnaryOp) and isinstance(up.test.op, ast.Not) and norm(up.test.operand) == nm:
+                    guarded = True
+                for fld in ("body", "orelse", "finalbody"):
+                    lst = getattr(up, fld, None)
+                    if isinstance(lst, list) and cur in lst:
+                        for prev in lst[: lst.index(cur)]:
+                            if isinstance(prev, ast.If) and isinstance(prev.test, ast.UnaryOp) and isinstance(prev.test.op, ast.Not) and norm(prev.test.operand) == nm and prev.body and isinstance(prev.body[-1], (ast.Return, ast.Raise)):
+                                guarded = True
+                cur = up
+            if guarded:
+                ctx.ok("R7.13", where(fi), f"COPYUID built only when `{nm}` holds something")
+            else:
+                ctx.bad("R7.13", fi.module, fi.qual, norm(c, 80), f"the COPYUID response code is built whether or not `{nm}` is empty: `UID COPY 999 other` (no such UID) is answered `[COPYUID <uidvalidity>  ]` - uid-sets can not be empty", c.lineno)
+    ctx.floor("R7.13", n, 2, "COPYUID constructions")
+
+
+def r7_14(ctx):
+    """ENVELOPE address structures (fetch.encode_addrs).  (a) An address list is `"(" 1*address ")" / nil`: the parenthesised
+    form is returned only when at least one address was produced, otherwise NIL - `To:` with nothing behind it is a header
+    that is present and holds no address.  (b) The address is split into mailbox and host at one `@` only (`rsplit("@", 1)` /
+    `partition`): a two-target unpack of `split("@")` raises ValueError for `"a@b"@c.com` and the whole FETCH fails."""
+    p = ctx.p
+    fi = p.func("fetch.encode_addrs")
+    ctx.analysed(fi)
+    g = ctx.cfg(fi)
+    # (b)
+    n_split = 0
+    for st in body_walk(fi.node):
+        if isinstance(st, ast.Assign) and len(st.targets) == 1 and isinstance(st.targets[0], ast.Tuple) and isinstance(st.value, ast.Call) and call_name(st.value) in ("split", "rsplit") and st.value.args and isinstance(st.value.args[0], ast.Constant) and st.value.args[0].value == "@":
+            n_split += 1
+            c = st.value
+            lim = c.args[1] if len(c.args) > 1 else kwarg(c, "maxsplit")
+            want = len(st.targets[0].elts) - 1
+            if isinstance(lim, ast.Constant) and lim.value == want:
+                ctx.ok("R7.14", where(fi), f"{norm(st, 60)}: exactly {want + 1} pieces")
+            else:
+                ctx.bad("R7.14", fi.module, fi.qual, norm(st, 70), f"`{norm(c, 40)}` is unpacked into {want + 1} names without a split limit: an address with a second `@` (a quoted local part: `\"a@b\"@c.com`) raises ValueError and FETCH ENVELOPE of the message fails as a whole", st.lineno)
+    if n_split == 0 and not any(call_name(c) in ("partition", "rpartition") for c in calls_in(fi.node)):
+        ctx.bad("R7.14", fi.module, fi.qual, "mailbox, host = email_address.rsplit('@', 1)", "the mailbox / host split of an address is no longer there", fi.node.lineno)
+    # (a)
+    rets = [nd for nd in g.nodes if nd.kind == "return" and nd.ast is not None and getattr(nd.ast, "value", None) is not None]
+    paren = [nd for nd in rets if isinstance(nd.ast.value, ast.BinOp) and any(isinstance(x, ast.Call) and call_name(x) == "join" for x in ast.walk(nd.ast.value))]
+    ctx.floor("R7.14", len(paren), 1, "parenthesised address-list returns")
+    for nd in paren:
+        joined = [x.args[0].id for x in ast.walk(nd.ast.value) if isinstance(x, ast.Call) and call_name(x) == "join" and x.args and isinstance(x.args[0], ast.Name)]
+        nm = joined[0] if joined else None
+        tests = {t.id for t in g.nodes if t.kind == "test" and t.ast is not None and nm and ((isinstance(t.ast, ast.UnaryOp) and isinstance(t.ast.op, ast.Not) and norm(t.ast.operand) == nm) or norm(t.ast) == nm)}
+        dom = flow.dominated_by(g, nd.id, lambda z: z in tests) if tests else [0]
+        if nm and dom is None:
+            ctx.ok("R7.14", where(fi), f"`(` addresses `)` is returned behind a test of `{nm}` for being empty")
+        else:
+            ctx.bad("R7.14", fi.module, fi.qual, norm(nd.ast, 70), "the parenthesised address list is returned without a test that it holds an address: a header that is present but empty (`To:`) is sent as `()`, which is neither an address list nor NIL", nd.line)
+
+
 def _run_extra(ctx):
     ctx.do(r7_4b)
     ctx.do(r7_8)
@@ -844,6 +924,8 @@ def _run_extra(ctx):
     ctx.do(r7_10)
     ctx.do(r7_11)
     ctx.do(r7_12)
+    ctx.do(r7_13)
+    ctx.do(r7_14)
 
 
 def run(ctx):
